@@ -22,6 +22,7 @@ V == Op("var")
 Named(k, nm) == [k EXCEPT !.nm = nm]
 
 DesignArgs   == -3..8
+DesignArgsQuick == -2..5
 QuickArgs    == {-2, 0, 1, 5}
 ThoroughArgs == {-3, -2, 0, 1, 2, 4, 7}
 
